@@ -1,5 +1,6 @@
 """Reference peak search (no scipy, no hvsrpy): local maxima with plateau handling, and the
-two-sided value-based oracle of DESIGN C08."""
+two-sided value-based oracle of DESIGN C08 (admissible: any local maximum strictly inside the range in Hz;
+must-find: interior maxima of the stretch nearest(lo)..nearest(hi))."""
 
 import numpy as np
 
@@ -43,18 +44,29 @@ class Oracle:
             for i in range(l, r + 1):
                 if in_range_strict(f[i], lo, hi):
                     self.admissible[i] = (l, r)
-        # must-find: interior local maxima of the curve restricted to lo <= f <= hi
-        keep = np.ones(f.size, dtype=bool)
-        if lo is not None:
-            keep &= f >= lo
-        if hi is not None:
-            keep &= f <= hi
-        idx = np.flatnonzero(keep)
-        self.must = []
-        if idx.size >= 3 and np.all(np.diff(idx) == 1):
-            off = idx[0]
-            for (l, r) in local_maxima(y[idx]):
-                self.must.append((l + off, r + off))
+        # must-find: interior local maxima of the searched stretch of the curve.  The stretch runs from the sample NEAREST
+        # to lo through the sample nearest to hi (the library's documented reading of a range given in Hz; an open end is
+        # the end of the grid); its two end samples are never interior.  So a peak on the first sample inside the range
+        # must be found when lo lies nearer to the sample before it, and need not when lo lies nearer to that sample
+        # itself (it then is the end of the stretch: the unchanged code answers (2.9, 9) on a 1 Hz grid that way).  A range
+        # end exactly half way between two samples has two nearest samples: only what every choice demands is demanded.
+        def nearest(v, default):
+            if v is None:
+                return [default]
+            d = np.abs(f - v)
+            m = float(d.min())
+            return [int(i) for i in np.flatnonzero(d <= m * (1 + 1e-12) + 1e-300)]
+        self.must = None
+        if f.size:
+            for a in nearest(lo, 0):
+                for b in nearest(hi, f.size - 1):
+                    here = set()
+                    if b - a >= 2:
+                        here = {(l + a, r + a) for (l, r) in local_maxima(y[a:b + 1])}
+                    # (a plateau cut by an end of the stretch is judged by the stretch, as find_peaks does)
+                    here = {(l, r) for (l, r) in here if all(in_range_strict(f[i], lo, hi) for i in range(l, r + 1))}
+                    self.must = here if self.must is None else (self.must & here)
+        self.must = sorted(self.must or [])
         self.must_amp = max((y[l] for l, _ in self.must), default=None)
 
     def judge(self, f_peak, a_peak):
